@@ -5,7 +5,7 @@
 
     decode:  `mantissa as f64`            -- the only rounding step (RNE to 53 bits)
              `/ 2f64.powi(56)`, `* 16f64.powi(exp)`  -- exact (powers of two, no under/overflow
-                                             because 2^-312 <= result < 2^252)
+                                             because 2^-312 <= result <= 2^252)
     encode:  `0.25*val.log2()`, `ceil`    -- libm; NOT modelled: the estimate is the parameter [est]
              clamp + two correction loops -- exact comparisons with powers of sixteen
              `val * 16f64.powi(14-exp)`   -- exact (power of two)
@@ -112,15 +112,25 @@ Definition gds_encode_orig_with (est : Z) (x : Z) : Z :=
 Definition true_exp16 (m e : Z) : Z :=
   let t := Z.log2 m + e + 1 in (t + 3) / 4.
 
+(** The range of NORMALISED GDSII reals: exponent byte 0..127 with a mantissa in [1/16, 1), i.e.
+    16^-65 <= |x| < 16^63, i.e. 2^-260 <= |x| < 2^252. (The lowest hex decade, [16^-65, 16^-64), is
+    exponent byte 0 with a normalised mantissa: true base-16 exponent E = -64.)
+    Until 2026-10-02 the lower bound here was 2^-256 = 16^-64, one hex decade narrower than the
+    format; that predicate is kept as [in_gds_range_old] (it implies the present one, lemma
+    [in_gds_range_old_incl] in GdsReal_proofs.v). *)
 Definition in_gds_range (x : Z) : Prop :=
   exists s m e, f64_decomp x = Some (s, m, e) /\ 0 < m /\
-    dy_lt_pow2 m e (-256) = false /\ dy_lt_pow2 m e 252 = true.
+    dy_lt_pow2 m e (-260) = false /\ dy_lt_pow2 m e 252 = true.
 
 Definition in_gds_rangeb (x : Z) : bool :=
   match f64_decomp x with
-  | Some (_, m, e) => (0 <? m) && negb (dy_lt_pow2 m e (-256)) && dy_lt_pow2 m e 252
+  | Some (_, m, e) => (0 <? m) && negb (dy_lt_pow2 m e (-260)) && dy_lt_pow2 m e 252
   | None => false
   end.
+
+Definition in_gds_range_old (x : Z) : Prop :=
+  exists s m e, f64_decomp x = Some (s, m, e) /\ 0 < m /\
+    dy_lt_pow2 m e (-256) = false /\ dy_lt_pow2 m e 252 = true.
 
 (** The reference encoding of an in-range double, written from the format description:
     exponent byte 64+E, mantissa the exact integer value*16^(14-E). *)
